@@ -74,3 +74,217 @@ fn c16_read_chunking_does_not_matter() {
     kani::cover!(enough && n == 8 && chunky.calls == 8, "eight one-byte reads");
     kani::cover!(!enough && n > 0, "truncated");
 }
+
+// ---- snap-agent: C15 BufferCursor / read_exact / write_all ---------------------------------------
+use crate::verif_hooks::VBuf;
+
+fn any_vbuf() -> VBuf {
+    let b = VBuf { data: kani::any(), len: kani::any() };
+    kani::assume(b.len <= 24);
+    b
+}
+
+fn any_seek() -> SeekFrom {
+    let k: u8 = kani::any();
+    kani::assume(k < 3);
+    match k {
+        0 => SeekFrom::Start(kani::any()),
+        1 => SeekFrom::End(kani::any()),
+        _ => SeekFrom::Current(kani::any()),
+    }
+}
+
+/// region in which `BufferCursor::seek` overflows `isize` arithmetic (KF-C15-9)
+fn seek_overflows(len: usize, pos: usize, s: SeekFrom) -> bool {
+    match s {
+        SeekFrom::Start(_) => false,
+        SeekFrom::End(d) => (len as isize).checked_add(d).is_none(),
+        SeekFrom::Current(d) => (pos as isize).checked_add(d).is_none(),
+    }
+}
+
+// @harness
+// @prop C15
+// @tier quick
+// @timeout 600
+// @fn BufferCursor::seek; BufferCursor::read
+// @sym buffer contents and length 0..24; two seeks of any variant with any 64-bit offset; read buffer length 0..8
+// @assert no panic / overflow; seek returns Ok(new position) exactly when the documented target (start / end / current + offset) is >= 0, else Err(SeekBeforeStart); read returns Err at or past the end, else Ok(n) with n = min(requested, remaining) and the bytes of the buffer at that position; the cursor advances by n
+// @bound two seeks then one read
+// @assume the offset does not overflow isize when added to the length / the position (complement: KF-C15-9)
+#[kani::proof]
+#[kani::unwind(10)]
+fn c15_io_buffer_cursor_seek_read() {
+    let b = any_vbuf();
+    let len = b.len;
+    let mut c = BufferCursor::new(b);
+    let s1 = any_seek();
+    kani::assume(!seek_overflows(len, 0, s1));
+    let r1 = c.seek(s1);
+    let want1: i128 = match s1 {
+        SeekFrom::Start(p) => p as i128,
+        SeekFrom::End(d) => len as i128 + d as i128,
+        SeekFrom::Current(d) => d as i128,
+    };
+    // Start(p) with p > isize::MAX cannot be represented by the cursor; it must not be accepted
+    if want1 < 0 || want1 > isize::MAX as i128 {
+        kani::assert(r1.is_err(), "c15.io.seek.unrepresentable_target_is_err");
+    } else {
+        kani::assert(matches!(r1, Ok(p) if p as i128 == want1), "c15.io.seek.position");
+    }
+    let pos1 = c.pos;
+    let s2 = any_seek();
+    kani::assume(!seek_overflows(len, pos1, s2));
+    let r2 = c.seek(s2);
+    if let SeekFrom::Current(d) = s2 {
+        let want2 = pos1 as i128 + d as i128;
+        if want2 < 0 {
+            kani::assert(r2.is_err() && c.pos == pos1, "c15.io.seek.before_start_is_err");
+        } else {
+            kani::assert(matches!(r2, Ok(p) if p as i128 == want2), "c15.io.seek.current_relative");
+        }
+    }
+    let pos = c.pos;
+    let mut buf = [0u8; 8];
+    let n: usize = kani::any();
+    kani::assume(n <= 8);
+    let rr = c.read(&mut buf[..n]);
+    if pos >= len {
+        kani::assert(rr.is_err() && c.pos == pos, "c15.io.read.at_end");
+    } else {
+        let want = n.min(len - pos);
+        kani::assert(matches!(rr, Ok(k) if k == want), "c15.io.read.count");
+        kani::assert(c.pos == pos + want, "c15.io.read.advances");
+        let i: usize = kani::any();
+        kani::assume(i < want);
+        kani::assert(buf[i] == c.data.data[pos + i], "c15.io.read.bytes");
+    }
+    kani::cover!(pos == 20 && n == 8 && len == 24, "short read at the end");
+    kani::cover!(r1.is_err(), "seek before start");
+    kani::cover!(pos > len, "cursor beyond the end");
+}
+
+// @harness
+// @prop C15
+// @tier quick
+// @timeout 300
+// @expect known:KF-C15-9
+// @fn BufferCursor::seek
+// @sym buffer, seek variant End/Current with an offset that overflows isize
+// @assert seek returns (Ok or Err) for every offset
+// @bound one or two seeks
+// @assume offset + length (or + position) exceeds isize::MAX (the region excluded from c15_io_buffer_cursor_seek_read)
+#[kani::proof]
+#[kani::unwind(10)]
+fn c15_known_io_seek_offset_overflow() {
+    let b = any_vbuf();
+    let len = b.len;
+    let mut c = BufferCursor::new(b);
+    let p: usize = kani::any();
+    kani::assume(p <= isize::MAX as usize);
+    let _ = c.seek(SeekFrom::Start(p));
+    let s = any_seek();
+    kani::assume(seek_overflows(len, c.pos, s));
+    let _ = c.seek(s);
+    kani::cover!(true, "reached");
+}
+
+/// asset honouring the documented contract and nothing more: each call returns Err, or Ok(n) with
+/// n <= buf.len() (0 = end of data), chosen by the solver; fills the delivered bytes with `fill`
+struct ContractAsset {
+    calls: u8,
+    delivered: usize,
+    fill: u8,
+}
+
+impl LoadableAsset for ContractAsset {
+    fn read(&mut self, buf: &mut [u8]) -> core::result::Result<usize, IoError> {
+        self.calls += 1;
+        if kani::any() {
+            return Err(IoError::HostAssetImplFailed);
+        }
+        let n: usize = kani::any();
+        kani::assume(n <= buf.len());
+        let mut i = 0;
+        while i < n {
+            buf[i] = self.fill;
+            i += 1;
+        }
+        self.delivered += n;
+        Ok(n)
+    }
+}
+
+// @harness
+// @prop C15
+// @tier quick
+// @timeout 600
+// @fn LoadableAsset::read_exact (default method)
+// @sym destination length 0..6; per call the asset returns Err, Ok(0) or any Ok(n <= requested)
+// @assert read_exact terminates (at most len+1 calls), never indexes out of range, returns Ok only if the whole buffer was filled, returns Err(UnexpectedEof) on a premature Ok(0) and passes an asset Err through
+// @bound buffers up to 6 bytes (the loop only depends on the remaining length)
+#[kani::proof]
+#[kani::unwind(9)]
+fn c15_io_read_exact_contract() {
+    let mut a = ContractAsset { calls: 0, delivered: 0, fill: 0xA5 };
+    let mut buf = [0u8; 6];
+    let len: usize = kani::any();
+    kani::assume(len <= 6);
+    let r = a.read_exact(&mut buf[..len]);
+    kani::assert(a.calls as usize <= len + 1, "c15.io.read_exact.bounded_calls");
+    kani::assert(a.delivered <= len, "c15.io.read_exact.never_over_delivers");
+    if r.is_ok() {
+        kani::assert(a.delivered == len, "c15.io.read_exact.ok_means_filled");
+        let i: usize = kani::any();
+        kani::assume(i < len);
+        kani::assert(buf[i] == 0xA5, "c15.io.read_exact.filled_bytes");
+    } else if a.delivered == len {
+        // all bytes arrived yet Err: only possible when the asset itself reported an error
+        kani::assert(matches!(r, Err(IoError::HostAssetImplFailed)), "c15.io.read_exact.err_only_from_asset");
+    }
+    kani::cover!(r.is_ok() && a.calls == 6 && len == 6, "six one-byte reads");
+    kani::cover!(matches!(r, Err(IoError::UnexpectedEof)) && a.delivered == 3, "premature end after three bytes");
+}
+
+struct ContractRecorder {
+    calls: u8,
+    accepted: usize,
+}
+
+impl DataRecorder for ContractRecorder {
+    fn write(&mut self, buf: &[u8]) -> core::result::Result<usize, IoError> {
+        self.calls += 1;
+        if kani::any() {
+            return Err(IoError::HostAssetImplFailed);
+        }
+        let n: usize = kani::any();
+        kani::assume(n <= buf.len());
+        self.accepted += n;
+        Ok(n)
+    }
+}
+
+// @harness
+// @prop C15
+// @tier quick
+// @timeout 600
+// @fn DataRecorder::write_all (default method)
+// @sym source length 0..6; per call the recorder returns Err, Ok(0) or any Ok(n <= offered)
+// @assert write_all terminates (at most len calls), returns Ok exactly when every byte was accepted, Err(WriteZero) when the sink refuses, and passes a recorder Err through
+// @bound buffers up to 6 bytes
+#[kani::proof]
+#[kani::unwind(9)]
+fn c15_io_write_all_contract() {
+    let mut r = ContractRecorder { calls: 0, accepted: 0 };
+    let buf = [0u8; 6];
+    let len: usize = kani::any();
+    kani::assume(len <= 6);
+    let res = r.write_all(&buf[..len]);
+    kani::assert(r.calls as usize <= len.max(1), "c15.io.write_all.bounded_calls");
+    kani::assert(res.is_ok() == (r.accepted == len) || res.is_err(), "c15.io.write_all.ok_means_all_accepted");
+    if res.is_ok() {
+        kani::assert(r.accepted == len, "c15.io.write_all.ok_means_all_accepted_2");
+    }
+    kani::cover!(res.is_ok() && r.calls == 6, "six one-byte writes");
+    kani::cover!(matches!(res, Err(IoError::WriteZero)), "sink full");
+}
